@@ -95,6 +95,16 @@ def run(tier, seed):
                     for ml in (mls if op in (3, 4) else [0]):
                         cases.append(Case('dkg_p%d_r%d_s%d_op%d_m%d' % (proto, role, state, op, ml), 'crypto', 'zzC10_step', [proto, role, state, op, ml], opts={'setup': dkgcommon.SETUP}))
         cases.append(Case('dkg_ctor_p%d' % proto, 'crypto', 'zzC10_constructor', [proto], opts={'setup': dkgcommon.SETUP}))
+    # DKG message sequences (harnesses of C08): messages that are well-formed for a different phase -- answers before
+    # complaints and before the vector, shares after invalid vectors, complaints from disqualified participants
+    import itertools
+    M64 = (1 << 64) - 1
+    for vk, sk, sf, ak, ek in itertools.product((0, 6), (-1, 0, 1, 2, 4), (False, True), (0, 1, 2), range(1, 6)):
+        cases.append(Case('dkgseq_early_v%d_s%d_%d_a%d_e%d' % (vk, sk, sf, ak, ek), 'crypto', 'zzDKG_qual_participant_early', [vk, sk & M64, sf, ak, False, 0, ek], opts={'setup': dkgcommon.SETUP}))
+    for vk, sk, sf in itertools.product(range(9), (0, 4, 9), (False, True)):
+        cases.append(Case('dkgseq_fvss_v%d_s%d_%d' % (vk, sk, sf), 'crypto', 'zzDKG_fvss_orders', [vk, sk, sf, False, False], opts={'setup': dkgcommon.SETUP}))
+    for order in (0, 1, 2):
+        cases.append(Case('dkgseq_jf_o%d' % order, 'crypto', 'zzC08_jf_complaints', [order, 2, True], opts={'setup': dkgcommon.SETUP}))
     # hash package
     for k in (0, 1, 15, 16, 17, 200):
         for c in (0, 5):
@@ -133,6 +143,7 @@ def run(tier, seed):
         bounds={'byte-slice lengths': 'signatures / proofs / shares %s; keys and decoder inputs 0,1,31..33,47..49,64,65,95..97; seeds 0,31,32,256,257; DKG messages %s; hash inputs around the sponge rates; contents symbolic (for 48-byte signatures inside list operations a correct signature is used: contents are the subject of C01-C06)' % (L, mls),
                 'integers and enums': 'fully symbolic 64-bit values for algorithm enums, sizes, thresholds, indices, origins, KMAC output size (< 40 for memory), PRG arguments',
                 'lists': '0..3 elements, nil elements, foreign key types, mismatched lengths',
+                'DKG sequences': 'the early-answer, share/vector order and Joint-Feldman complaint scenarios of C08 (a panic on any of their paths is a C09 violation)',
                 'DKG': 'every API method from every automaton state of the three protocols (n = 3, t = 1), both roles, symbolic origin and message bytes',
                 'documented exceptions (assumed away)': 'UintN(0), nil hasher interface values are driven and must give the typed error; nil callbacks / nil processor, memory-linear sizes beyond the bound, no-cgo builds',
                 'outside': 'panics inside library code behind stubs (BLST, crypto/ecdsa, x/crypto) on inputs that satisfy their documented preconditions; resource exhaustion'},
